@@ -92,7 +92,9 @@ func VerifHarness_C13_apply_deposit() {
 		return
 	}
 	dom := common.ComputeDomain(common.DOMAIN_DEPOSIT, spec.GENESIS_FORK_VERSION, common.Root{})
-	root := common.ComputeSigningRoot(dep.Data.MessageRoot(), dom)
+	// spec: deposit_message = DepositMessage(pubkey, withdrawal_credentials, amount); the signing root is over ITS root
+	msg := common.DepositMessage{Pubkey: dep.Data.Pubkey, WithdrawalCredentials: dep.Data.WithdrawalCredentials, Amount: dep.Data.Amount}
+	root := common.ComputeSigningRoot(msg.HashTreeRoot(tree.GetHashFn()), dom)
 	pop := zzverif.BLSPubkeyValid(dep.Data.Pubkey) && zzverif.BLSSigValid(dep.Data.Signature) && zzverif.BLSVerify(dep.Data.Pubkey, root[:], dep.Data.Signature)
 	if !pop {
 		zzverif.Assert(cnt == uint64(n), "a new pubkey without a valid proof of possession is skipped")
